@@ -86,6 +86,8 @@ def main():
         res = {"raised": repr(e)}
     sys.stdout.flush()
     os.dup2(real, 1)
+    import shutil
+    shutil.rmtree(d, ignore_errors=True)
     json.dump(res, sys.stdout)
 
 
